@@ -309,7 +309,11 @@ func (m *Model) Step(req refcodec.Msg) Outcome {
 				f := m.Fids[uint32(req.Vals[i].(uint64))]
 				if f == nil {
 					allBound = false
-				} else if f.Unknown || (f.XWalk && req.Type != refcodec.Tread && req.Type != refcodec.Tclunk) {
+				} else if f.Unknown || (f.XWalk && req.Type != refcodec.Tread && req.Type != refcodec.Tclunk &&
+					// a fid fresh from Txattrwalk is an UNOPENED fid: "readdir and
+					// fsync are accepted only on a fid opened in a compatible mode
+					// (EINVAL if unopened)" binds it like any other
+					req.Type != refcodec.Treaddir && req.Type != refcodec.Tfsync) {
 					odd = true
 				}
 			}
@@ -891,8 +895,8 @@ func (m *Model) Step(req refcodec.Msg) Outcome {
 		if f == nil {
 			return bad(uint32(req.U("fid")))
 		}
-		if f.Unknown || f.XWalk || f.XCreate {
-			return Outcome{Expect: either("readdir on an xattr / undefined fid"), Apply: nop}
+		if f.Unknown || f.XCreate {
+			return Outcome{Expect: either("readdir on an xattr-create / undefined fid"), Apply: nop}
 		}
 		if f.Obj.Kind != KDir {
 			return Outcome{Expect: anyErr("readdir on a non-directory"), NoBackend: true, Apply: nop}
@@ -931,8 +935,8 @@ func (m *Model) Step(req refcodec.Msg) Outcome {
 		if f == nil {
 			return bad(uint32(req.U("fid")))
 		}
-		if f.Unknown || f.XWalk || f.XCreate {
-			return Outcome{Expect: either("fsync on an xattr / undefined fid"), Apply: nop}
+		if f.Unknown || f.XCreate {
+			return Outcome{Expect: either("fsync on an xattr-create / undefined fid"), Apply: nop}
 		}
 		if !f.Opened {
 			return Outcome{Expect: errno("fsync on an unopened fid", EINVAL), NoBackend: true, Apply: nop}
